@@ -234,11 +234,16 @@ func (u *Unit) atomicOp(st *State, fn *types.Func, recv *Val, args []Val, pos to
 		}
 		return v, true
 	case "Store":
+		if tok, has := u.casToken(st, recv); has {
+			// a plain Store to a CAS-protected state word is the privilege of the goroutine that won the transition
+			u.oblige(st, "atomic-token", "Store@"+u.seqLabel("atomic-token", pos), tok, pos)
+		}
 		set(args[0].S)
 		return Val{Kind: KTuple}, true
 	case "Add":
 		nv := tAdd(cur(), args[0].S)
 		set(nv)
+		u.atomicGhost(st, recv, args[0].S)
 		return res(nv), true
 	case "Swap":
 		old := cur()
@@ -250,6 +255,9 @@ func (u *Unit) atomicOp(st *State, fn *types.Func, recv *Val, args []Val, pos to
 		okc := u.fresh("cas.ok", SBool)
 		st.assume(tEq(okc, ok))
 		set(tIte(okc, args[1].S, old))
+		if tok, has := u.casToken(st, recv); has {
+			st.ghost["$castok:"+recv.S] = boolVal(tOr(tok, okc))
+		}
 		return boolVal(okc), true
 	}
 	return Val{}, false
@@ -361,6 +369,15 @@ func (u *Unit) lockOp(st *State, call *ast.CallExpr, op string) {
 		// other goroutines may have changed everything the lock guards
 		s := structOf(ls.owner)
 		for _, g := range ls.spec.Guards {
+			if gh, isGhost := u.eng.cs.Ghosts[g]; isGhost {
+				// a ghost the lock protects (shared bookkeeping): havoc it at this object too
+				genv := &specEnv{u: u, st: st, vars: map[string]Val{}, pkg: u.pkg.Types}
+				sort := u.ghostSort(genv, gh)
+				h := u.heapTerm(st, "G$"+gh.Name, sort)
+				u.logWrite(st, "G$"+gh.Name, ls.ref)
+				u.setHeap(st, "G$"+gh.Name, sort, tStore(h, ls.ref, u.fresh("guarded."+g, arrayElemSort(sort))))
+				continue
+			}
 			for i := 0; i < s.NumFields(); i++ {
 				f := s.Field(i)
 				if f.Name() != g {
@@ -494,4 +511,51 @@ func (u *Unit) havocStruct(st *State, T types.Type, ref Term) {
 		u.assumeRefBelowFrontier(st, nv)
 		u.storeAt(st, fieldHeap(T, f.Name()), f.Type(), ref, nv)
 	}
+}
+
+
+// atomicGhost: `flag atomic_ghost <field> <ghost>` - every Add(d) on the atomic field <field> of an object also adds d to
+// the ghost g(<object>): the calling goroutine's own net contribution to a shared counter (thread-local accounting).
+func (u *Unit) atomicGhost(st *State, recv *Val, delta Term) {
+	r := u.root()
+	if r.contract == nil {
+		return
+	}
+	f := strings.Fields(r.contract.Flags["atomic_ghost"])
+	if len(f) != 2 {
+		return
+	}
+	t := recv.S
+	if !strings.HasPrefix(t, "(sub$") || !strings.Contains(strings.SplitN(t, " ", 2)[0], "."+f[0]) {
+		return
+	}
+	owner := strings.TrimSuffix(strings.SplitN(t, " ", 2)[1], ")")
+	g := u.eng.cs.Ghosts[f[1]]
+	if g == nil {
+		u.reject("atomic_ghost: unknown ghost %s", f[1])
+		return
+	}
+	sort := sArr(SInt, SInt)
+	h := u.heapTerm(st, "G$"+g.Name, sort)
+	u.logWrite(st, "G$"+g.Name, owner)
+	u.setHeap(st, "G$"+g.Name, sort, tStore(h, owner, tAdd(tSel(h, owner), delta)))
+}
+
+
+// casToken: `flag cas_token <field>` - the atomic field <field> is a state word whose transitions are claimed by
+// CompareAndSwap; returns the current "this goroutine won a transition" token for that word.
+func (u *Unit) casToken(st *State, recv *Val) (Term, bool) {
+	r := u.root()
+	if r.contract == nil || r.contract.Flags["cas_token"] == "" {
+		return "", false
+	}
+	f := r.contract.Flags["cas_token"]
+	t := recv.S
+	if !strings.HasPrefix(t, "(sub$") || !strings.Contains(strings.SplitN(t, " ", 2)[0], "."+f) {
+		return "", false
+	}
+	if v, ok := st.ghost["$castok:"+recv.S]; ok {
+		return v.S, true
+	}
+	return "false", true
 }
